@@ -163,17 +163,17 @@ func VxC16_LogGuards() {
 	}
 }
 
-// VxC16_LogAffine: Map(Min)=0, Map(Max)=1, affine in log|x|, strictly monotone, Unmap inverse
+// VxC16_LogAffine: Map(Min)=0, Map(Max)=1, affine in log|x|, strictly monotone, clamping
 // (exact-real reading; log and exp uninterpreted with: strictly increasing, exp(log x)=x).
 //
 //vx:mode R
 //vx:solver z3
-//vx:bound positive and negative domains, any reals 0 < lo < hi, x1, x2 of the right sign, y
+//vx:bound positive and negative, increasing and decreasing (Min beyond Max, set through the fields) domains, any reals 0 < lo < hi, x1, x2 of the right sign, y
 //vx:assume log/exp contract: strictly increasing, log 1 = 0, exp(log x) = x and log(exp t) = t on occurring terms
 //vx:outside accuracy of math.Log/Exp; float64 round-trip error
 func VxC16_LogAffine() {
 	lo, hi := vx.Float("lo"), vx.Float("hi")
-	x1, x2, y := vx.Float("x1"), vx.Float("x2"), vx.Float("y")
+	x1, x2 := vx.Float("x1"), vx.Float("x2")
 	vx.Assume(vx.And(lo > 0, lo < hi))
 	vx.Assume(vx.And(x1 > 0, x2 > 0))
 	neg := vx.Choose("negative", 0, 1) == 1
@@ -184,16 +184,22 @@ func VxC16_LogAffine() {
 		sgn = -1
 	}
 	vx.Assume(err == nil)
+	// a decreasing domain (Min beyond Max) can only be set through the exported fields
+	dir := sgn
+	if vx.Choose("decreasing", 0, 1) == 1 {
+		s.Min, s.Max = s.Max, s.Min
+		dir = -sgn
+	}
 	vx.Assert(vx.Close(s.Map(s.Min), 0, 0, 1e-9), "Log.Map(Min) = 0")
 	vx.Assert(vx.Close(s.Map(s.Max), 1, 1e-9, 0), "Log.Map(Max) = 1")
 	m1, m2 := s.Map(sgn*x1), s.Map(sgn*x2)
 	// affine in log|x|
-	vx.Assert(vx.Close(m1-m2, sgn*(math.Log(x1)-math.Log(x2))/(math.Log(hi)-math.Log(lo)), 1e-9, 1e-9), "Log.Map is affine in log|x|")
+	vx.Assert(vx.Close(m1-m2, dir*(math.Log(x1)-math.Log(x2))/(math.Log(hi)-math.Log(lo)), 1e-9, 1e-9), "Log.Map is affine in log|x|")
 	if x1 < x2 {
-		if neg {
-			vx.Assert(vx.Leq(m2, m1, 1e-9, 1e-9), "negative domain: larger |x| maps lower")
+		if dir < 0 {
+			vx.Assert(vx.Leq(m2, m1, 1e-9, 1e-9), "negative or decreasing domain: larger |x| maps lower")
 		} else {
-			vx.Assert(vx.Leq(m1, m2, 1e-9, 1e-9), "positive domain: Map is increasing")
+			vx.Assert(vx.Leq(m1, m2, 1e-9, 1e-9), "Map is increasing in |x| towards Max")
 		}
 		if vx.Real() {
 			vx.Assert(m1 != m2, "Log.Map is strictly monotone")
@@ -209,15 +215,45 @@ func VxC16_LogAffine() {
 		vx.Assert(vx.Close(c1, m1, 1e-9, 1e-9), "clamping leaves Log.Map unchanged inside the domain")
 	} else {
 		vx.Cover("outside-domain")
-		beyondMax := (x1 > hi) != neg // past Max for a positive domain; for a negative one |x| < |Max|... mapped past 1
+		beyondMax := (x1 > hi) == (dir > 0) // on the far side of Max
 		if beyondMax {
 			vx.Assert(c1 == 1, "beyond Max the clamped Log.Map is 1")
 		} else {
 			vx.Assert(c1 == 0, "before Min the clamped Log.Map is 0")
 		}
 	}
-	vx.Assert(vx.Close(s.Unmap(m1), sgn*x1, 1e-9, 1e-9), "Log.Unmap(Map(x)) = x")
-	vx.Assert(vx.Close(s.Map(s.Unmap(y)), y, 1e-9, 1e-9), "Log.Map(Unmap(y)) = y")
+}
+
+// VxC16_LogInverse: Unmap inverts Map on and beyond the domain (any x of the right sign, any y),
+// for positive and negative, increasing and decreasing Log domains.
+// C16: "Unmap is its inverse on and beyond the domain, for increasing, decreasing and negative domains".
+//
+//vx:mode R
+//vx:solver z3
+//vx:timeout 60000
+//vx:bound positive and negative, increasing and decreasing (Min beyond Max, set through the fields) domains, any reals 0 < lo < hi, x of the right sign, y
+//vx:assume log/exp contract: strictly increasing, log 1 = 0, exp(log x) = x and log(exp t) = t on occurring terms
+//vx:outside accuracy of math.Log/Exp; float64 round-trip error
+func VxC16_LogInverse() {
+	lo, hi := vx.Float("lo"), vx.Float("hi")
+	x1, y := vx.Float("x1"), vx.Float("y")
+	vx.Assume(vx.And(lo > 0, lo < hi))
+	vx.Assume(x1 > 0)
+	sgn := 1.0
+	s, err := NewLog(lo, hi, 10)
+	if vx.Choose("negative", 0, 1) == 1 {
+		s, err = NewLog(-hi, -lo, 10)
+		sgn = -1
+	}
+	vx.Assume(err == nil)
+	if vx.Choose("decreasing", 0, 1) == 1 {
+		s.Min, s.Max = s.Max, s.Min
+	}
+	if vx.Choose("law", 0, 1) == 0 {
+		vx.Assert(vx.Close(s.Unmap(s.Map(sgn*x1)), sgn*x1, 1e-9, 1e-9), "Log.Unmap(Map(x)) = x")
+	} else {
+		vx.Assert(vx.Close(s.Map(s.Unmap(y)), y, 1e-9, 1e-9), "Log.Map(Unmap(y)) = y")
+	}
 }
 
 // VxC16_QQ: QQ.Map = Dest.Unmap o Src.Map, QQ.Unmap = Src.Unmap o Dest.Map, mutual inverses,
